@@ -154,9 +154,10 @@ def infeasible_pattern_masking(ctx, rule='A5m'):
     n += 1
     if stores:
         def empty_fact(atom, truth):
-            return truth is True and isinstance(atom, ast.Compare) and 'shape[0]' in norm(atom.left) and \
-                isinstance(atom.ops[0], ast.Eq) and isinstance(atom.comparators[0], ast.Constant) and \
-                atom.comparators[0].value == 0
+            return isinstance(atom, ast.Compare) and len(atom.ops) == 1 and 'shape[0]' in norm(atom.left) and \
+                isinstance(atom.comparators[0], ast.Constant) and atom.comparators[0].value == 0 and \
+                ((isinstance(atom.ops[0], ast.Eq) and truth is True) or
+                 (isinstance(atom.ops[0], (ast.NotEq, ast.Gt)) and truth is False))
         guards.check_guarded(ctx, rule, fn, stores, empty_fact, set(), 'mark-only-empty',
                              'a pattern is marked -1 only under the test that its aggregate matrix has zero rows')
         n += 1
